@@ -5,6 +5,7 @@ import (
 	"go/constant"
 	"go/token"
 	"go/types"
+	"os"
 	"sort"
 	"strings"
 
@@ -116,12 +117,35 @@ func (x *Evaluator) evalCallR(call *ssa.Call, idx int, e *env, c *evalCtx, recvO
 		}
 		return x.symbolic(resultType(call, idx), origin)
 	}
+	// a function that is being evaluated already twice on this way (mutual recursion of the driver:
+	// evaluate -> handler -> evaluate): its result is left symbolic instead of unfolding it again
+	if x.active == nil {
+		x.active = map[*ssa.Function]int{}
+	}
+	if os.Getenv("VERIF_DEBUG_CALLS") != "" {
+		fmt.Fprintf(os.Stderr, "call d=%d %s from %s\n", e.depth, callee.Name(), e.fn.Name())
+	}
+	if x.active[callee] >= 2 {
+		return x.symbolic(resultType(call, idx), "recursive:"+callee.Name())
+	}
+	// functions of another package of the product are unfolded a few levels only (type predicates
+	// and accessors of the tree): the package under analysis never depends on how, say, the
+	// parser arrives at the tree it hands over
+	if x.Pkg != nil && pkgOf(callee) != x.Pkg.Pkg {
+		if x.foreign >= 3 {
+			return x.symbolic(resultType(call, idx), "ext:"+callee.String())
+		}
+		x.foreign++
+		defer func() { x.foreign-- }()
+	}
 	x.curCall = call
 	x.recvOv = recvOv
 	ne := x.bindCall(callee, cc.Args, e, c, clos, closEnv)
 	x.recvOv = nil
 	x.curCall = nil
 	ne.opaqueResult = e.opaqueResult
+	x.active[callee]++
+	defer func() { x.active[callee]-- }()
 	return x.summarise(ne, idx)
 }
 
